@@ -137,8 +137,14 @@ fn tag_vars(tag: &str) -> (RVars, String) {
     }
 }
 
+thread_local! {
+    /// options that do not take part in the flow law (a `--schema` choice, ...) added to every command line built on this thread
+    static AMBIENT: std::cell::RefCell<Vec<String>> = const { std::cell::RefCell::new(Vec::new()) };
+}
+
 fn argv(c: &Case, sets: &[(&'static str, Vec<Rule>)]) -> Vec<String> {
     let mut v = a(&["flow"]);
+    AMBIENT.with(|x| v.extend(x.borrow().iter().cloned()));
     if c.stdin { v.extend(a(&["--source", "stdin"])); } else { v.extend(a(&["--source", "none", "--tag-version", TAGS[c.tag]])); }
     if let Some(b) = branch_name(c.branch) { v.extend(a(&["--bumped-branch", b])); }
     if let Some(d) = c.distance { v.extend(a(&["--distance", &d.to_string()])); }
@@ -232,6 +238,18 @@ fn main() {
     use rayon::prelude::*;
     let cases = space(ctx.quick(), &sets);
     let s1 = cases.par_iter().map(|c| { let mut st = Stats::default(); judge(&ctx, c, &tags, &sets, now, &mut st); st }).reduce(Stats::default, Stats::merge);
+    // the derived components do not depend on which schema will print them: a strided third of the product again under each of the 11
+    // standard `--schema` presets (zerv flow refuses the calver ones) (fixed variants without a post / dev / pre-release part among them), read back with --output-format zerv
+    let schemas = ["standard", "standard-no-context", "standard-context", "standard-base", "standard-base-context", "standard-base-prerelease", "standard-base-prerelease-context", "standard-base-prerelease-post", "standard-base-prerelease-post-context", "standard-base-prerelease-post-dev", "standard-base-prerelease-post-dev-context"];
+    let stride = if ctx.quick() { 41 } else { 7 };
+    let sch_work: Vec<(usize, &Case)> = cases.iter().enumerate().filter(|(i, _)| i % stride == 0).map(|(i, c)| ((i / stride) % schemas.len(), c)).collect();
+    let s_sch = sch_work.par_iter().map(|(si, c)| {
+        let mut st = Stats::default(); st.inc("schema_option_runs");
+        AMBIENT.with(|x| *x.borrow_mut() = vec!["--schema".to_string(), schemas[*si].to_string()]);
+        judge(&ctx, c, &tags, &sets, now, &mut st);
+        AMBIENT.with(|x| x.borrow_mut().clear());
+        st
+    }).reduce(Stats::default, Stats::merge);
     let hs = hash_space();
     let s2 = hs.par_iter().map(|c| { let mut st = Stats::default(); st.inc("hash_len_runs"); judge(&ctx, c, &tags, &sets, now, &mut st); st }).reduce(Stats::default, Stats::merge);
     let gsp = grid_space();
@@ -278,7 +296,7 @@ fn main() {
     let d = |()| cases.iter().take(800).map(|c| { let mut st = Stats::default(); judge(&ctx, c, &tags, &sets, now, &mut st); st }).fold(Stats::default(), Stats::merge).digest;
     if d(()) != d(()) { machinery_error("determinism replay diverged"); }
 
-    let all = s1.merge(s2).merge(s3).merge(s4.clone());
+    let all = s1.merge(s_sch).merge(s2).merge(s3).merge(s4.clone());
     let mut cov = Coverage::default();
     cov.states = (cases.len() + hs.len() + gsp.len() + msp.len() + lsp.len()) as u64 + all.get("resolve_for_branch_cases");
     cov.transitions = all.get("runs");
